@@ -230,7 +230,7 @@ def check_interleaving(case):
 
 SHARDS = {"quick": 8, "thorough": 16}
 ORACLES = [
-    Oracle("own_phase_factor", multi_case(), check_own_factor, quick=40, thorough=250, shrink_seconds=180),
-    Oracle("order_independence", multi_case(), check_permutations, quick=24, thorough=150, shrink_seconds=180),
-    Oracle("interleaving", interleave_case(), check_interleaving, quick=24, thorough=150, shrink_seconds=180),
+    Oracle("own_phase_factor", multi_case(), check_own_factor, quick=80, thorough=800, shrink_seconds=180),
+    Oracle("order_independence", multi_case(), check_permutations, quick=48, thorough=500, shrink_seconds=180),
+    Oracle("interleaving", interleave_case(), check_interleaving, quick=48, thorough=500, shrink_seconds=180),
 ]
